@@ -72,6 +72,13 @@ def run(ctx):
             confirmed, text = replay_native(name, model) if "chunk_value" in model or "op" in model else (False, "no concrete input: opaque objects")
             ctx.violation(name, {"function": name.split(".")[0], "model": model, "replay_result": text,
                                  "snippet": SNIPPET.format(model=model, name=name)}, confirmed, what=text)
+    # the contracts above ASSUME that stored min/max are true bounds of the chunk; the writer-side obligation that establishes it
+    # for fastparquet's own files (statistics are the PLAIN encoding of the column's real extremes, unmodified) is posed here too
+    try:
+        from ._bookkeeping import p_bookkeeping
+        p_bookkeeping(ctx)
+    except Exception as ex:          # out of reach for this run: undecided, never a violation
+        ctx.obligation("p_bookkeeping.out_of_reach", "writer.write_column", "unknown", "engine", 0.0, detail=f"{type(ex).__name__}: {ex}", sample=True)
     try:
         from runtime import c05_superset
     except ImportError:
